@@ -99,6 +99,146 @@ class CoopRLock(CoopLock):
         return (self.locked_flag, self.owner, self.count)
 
 
+class CoopSemaphore(CoopLock):
+    """Replacement for threading.Semaphore / BoundedSemaphore."""
+
+    def __init__(self, value=1):
+        CoopLock.__init__(self)
+        self.value = value
+        self.initial = value
+        self.bounded = False
+
+    def acquire(self, blocking=True, timeout=None):
+        run = Run.current
+        run.point(("acq", self))
+        if self.value <= 0:
+            raise RuntimeError("scheduler granted an exhausted semaphore")
+        self.value -= 1
+        if run.fine:
+            run.point(("after-acq", self))
+        return True
+
+    def release(self, n=1):
+        run = Run.current
+        run.point(("rel", self))
+        if self.bounded and self.value + n > self.initial:
+            raise ValueError("Semaphore released too many times")
+        self.value += n
+        if run.fine:
+            run.point(("after-rel", self))
+
+    def blocks(self, idx):
+        return self.value <= 0
+
+    def locked(self):
+        return self.value <= 0
+
+    def state(self):
+        return ("sem", self.value)
+
+
+class CoopBoundedSemaphore(CoopSemaphore):
+    def __init__(self, value=1):
+        CoopSemaphore.__init__(self, value)
+        self.bounded = True
+
+
+class CoopEvent(CoopLock):
+    """Replacement for threading.Event (wait without timeout blocks until set)."""
+
+    def __init__(self):
+        CoopLock.__init__(self)
+        self.flag = False
+
+    def is_set(self):
+        return self.flag
+
+    def set(self):
+        Run.current.point(("rel", self))
+        self.flag = True
+
+    def clear(self):
+        Run.current.point(("rel", self))
+        self.flag = False
+
+    def wait(self, timeout=None):
+        Run.current.point(("acq", self))
+        return True
+
+    def blocks(self, idx):
+        return not self.flag
+
+    def state(self):
+        return ("event", self.flag)
+
+
+class CoopCondition(CoopLock):
+    """Replacement for threading.Condition: wait() releases the underlying lock, blocks until notified, re-acquires.
+    Timeouts are ignored (a timed wait is modelled as an untimed one: harness programs are loop-free and finite)."""
+
+    def __init__(self, lock=None):
+        CoopLock.__init__(self)
+        self.lock = lock if lock is not None else CoopRLock()
+        self.waiters = []
+        self.notified = []
+
+    def acquire(self, *a, **k):
+        return self.lock.acquire(*a, **k)
+
+    def release(self):
+        return self.lock.release()
+
+    def __enter__(self):
+        return self.lock.acquire()
+
+    def __exit__(self, *a):
+        self.lock.release()
+
+    def wait(self, timeout=None):
+        run = Run.current
+        me = run.me()
+        if not self.lock.locked_flag or (isinstance(self.lock, CoopRLock) and self.lock.owner != me):
+            raise RuntimeError("cannot wait on un-acquired lock")
+        depth = getattr(self.lock, "count", 1)
+        self.waiters.append(me)
+        for _ in range(depth):
+            self.lock.release()
+        run.point(("acq", self))            # enabled once this waiter has been notified
+        self.notified.remove(me)
+        for _ in range(depth):
+            self.lock.acquire()
+        return True
+
+    def wait_for(self, predicate, timeout=None):
+        r = predicate()
+        while not r:
+            self.wait()
+            r = predicate()
+        return r
+
+    def notify(self, n=1):
+        run = Run.current
+        if not self.lock.locked_flag:
+            raise RuntimeError("cannot notify on un-acquired lock")
+        run.point(("rel", self))
+        for _ in range(min(n, len(self.waiters))):
+            self.notified.append(self.waiters.pop(0))
+
+    def notify_all(self):
+        self.notify(len(self.waiters))
+
+    notifyAll = notify_all
+
+    def blocks(self, idx):
+        return idx not in self.notified
+
+    def locked(self):
+        return self.lock.locked_flag
+
+    def state(self):
+        return ("cond", tuple(self.waiters), tuple(sorted(self.notified)), self.lock.state())
+
+
 class Worker:
     def __init__(self, idx, fn):
         self.idx = idx
